@@ -108,7 +108,8 @@ fn run(args: &[String]) {
                 // a panic in harness code itself (not under guard) is a harness error: inconclusive
                 let r = std::panic::catch_unwind(std::panic::AssertUnwindSafe(|| f(&mut ctx)));
                 if r.is_err() {
-                    ctx.notes.push(format!("HARNESS-ERROR shard {} aborted by an unguarded panic at case {}", s, ctx.case_no));
+                    let pm = monitor::take_last_panic();
+                    ctx.notes.push(format!("HARNESS-ERROR shard {} aborted by an unguarded panic at case {}: {:?}", s, ctx.case_no, pm));
                 }
                 results.lock().unwrap().push(ctx);
             })
